@@ -15,6 +15,7 @@ from mc.world import (FakeReader, FakeWriter, install_net, classes, session_of, 
                       stored_counters, journal_rows, conn_key, TmpDir)
 
 RUN_LIMIT = 3000
+EOF_MARK = b"<EOF>"
 
 
 class Side:
@@ -101,6 +102,10 @@ class World2:
         a, b = self.a, self.b
         a.reader, a.writer = FakeReader(), FakeWriter("A")
         b.reader, b.writer = FakeReader(), FakeWriter("B")
+        a.writer.own_reader, b.writer.own_reader = a.reader, b.reader
+        # an end that closes its transport is seen as EOF by the other end, after the frames already in flight
+        a.writer.on_lost = lambda q=self.flight["AB"]: (self.up and q.append(EOF_MARK))
+        b.writer.on_lost = lambda q=self.flight["BA"]: (self.up and q.append(EOF_MARK))
         self.flight["AB"].clear()
         self.flight["BA"].clear()
         wa, wb = a.writer, b.writer
@@ -128,6 +133,11 @@ class World2:
             return None
         fr = q.popleft()
         dst = self.b if direction == "AB" else self.a
+        if fr is EOF_MARK:
+            if dst.reader is not None and not dst.reader.eof:
+                dst.reader.feed_eof()
+                self.run()
+            return b""
         if dst.reader is not None:
             dst.reader.feed(fr)
             self.run()
@@ -166,6 +176,8 @@ class World2:
 
 
 def norm_frame(raw):
+    if raw is EOF_MARK:
+        return ("EOF",)
     f, err = refs.try_parse(raw)
     if f is None:
         return ("?", raw[:20])
